@@ -4,8 +4,9 @@
 //	rsasig.pem     an RSA key whose certificate's keyUsage is digitalSignature only (a key meant for signing requests)
 //	rsaski.pem     an RSA key whose certificate carries a SubjectKeyIdentifier (as openssl-made certificates do)
 //	rsaskimal.pem  Mallory's RSA key under a self-signed certificate that copies rsaski's subject and SubjectKeyIdentifier
+//	rsa4096.pem    a 4096-bit RSA key (signed requests carrying its certificate and signature exceed 4 KiB)
 //
-// usage: go run ./cmd/mkfixture <fixtures dir>
+// usage: go run ./cmd/mkfixture <fixtures dir> [only-missing]
 package main
 
 import (
@@ -39,6 +40,16 @@ func write(dir, name string, key *rsa.PrivateKey, tmpl *x509.Certificate) {
 
 func main() {
 	dir := os.Args[1]
+	if len(os.Args) > 2 { // later additions only: the files of the first call stay as committed
+		k, err := rsa.GenerateKey(rand.Reader, 4096)
+		if err != nil {
+			panic(err)
+		}
+		write(dir, "rsa4096", k, &x509.Certificate{SerialNumber: big.NewInt(104), Subject: pkix.Name{CommonName: "rsa4096"},
+			NotBefore: time.Date(1990, 1, 1, 0, 0, 0, 0, time.UTC), NotAfter: time.Date(2200, 1, 1, 0, 0, 0, 0, time.UTC),
+			KeyUsage: x509.KeyUsageDigitalSignature | x509.KeyUsageKeyEncipherment, BasicConstraintsValid: true})
+		return
+	}
 	nb, na := time.Date(1990, 1, 1, 0, 0, 0, 0, time.UTC), time.Date(2200, 1, 1, 0, 0, 0, 0, time.UTC)
 	gen := func() *rsa.PrivateKey {
 		k, err := rsa.GenerateKey(rand.Reader, 2048)
